@@ -26,3 +26,28 @@ def run(ctx):
             l = mv_to_dict(x.cp(y) + x.acp(y)); r = mv_to_dict(x * y)
             if not dict_equal(l, r):
                 ctx.violation('identity', case, 'cp+acp == gp', [canon_dict(l), canon_dict(r)], key='ident:cp+acp')
+    # operands with hundreds of blades (d = 10): a single result coefficient is then a sum of several hundred terms (the scalar
+    # product of two operands sharing n blades has n terms, n not a multiple of any round chunk size); compared with the
+    # definition over the sign table
+    from fractions import Fraction
+    from kingdon import MultiVector
+    rng = ctx.rng
+    alg = make_algebra([1, 1, 1, -1, 1, -1, 1, 1, -1, 1])     # non-degenerate: no term of the sums vanishes
+    S = alg.signs
+    for n in ((525, 777) if ctx.quick else (513, 525, 640, 777, 1023)):
+        keys = tuple(sorted(rng.sample(range(1024), n)))
+        vx = [rng.randint(1, 5) for _ in keys]; vy = [rng.randint(1, 5) for _ in keys]
+        x = MultiVector.fromkeysvalues(alg, keys, list(vx)); y = MultiVector.fromkeysvalues(alg, keys, list(vy))
+        for op in ('sp',) if ctx.quick else ('sp', 'lc'):
+            case = {'sig': [int(v) for v in alg.signature], 'op': op, 'shared_blades': n}
+            ctx.case(case, tag='long-sums')
+            try:
+                got = mv_to_dict(BIN[op](x, y))
+            except Exception as e:
+                ctx.violation('raises', case, 'a multivector', repr(e)[:200], key=f'{op}:long-sum:raises')
+                continue
+            exp = REFBIN[op](S, dict(zip(keys, vx)), dict(zip(keys, vy)))
+            exp = {k: v for k, v in exp.items() if v != 0}
+            if got != exp:
+                bad = sorted(k for k in set(got) | set(exp) if got.get(k, 0) != exp.get(k, 0))[:4]
+                ctx.violation('oracle', {**case, 'differing_blades': bad}, str({k: exp.get(k, 0) for k in bad}), str({k: got.get(k, 0) for k in bad}), key=f'{op}:long-sum')
